@@ -595,6 +595,7 @@ def run_taheri_admg(ctx, gd, rng, pair=None):
 
 
 def run_shard(ctx):
+    gg.ALLOW_ODD = True  # node names that are not Python identifiers are node names like any other
     from .. import mon_graph
 
     install()
